@@ -34,6 +34,11 @@ type c10World struct {
 	waitSubs []string                                  // subscriptions the waiters wait on
 	writer   func(ctx context.Context) error           // the committing change
 	check    func(rm []*pubsubpb.ReceivedMessage) bool // optional extra check of what the waiter got
+	// pullOnly: the scenario is about unary pulls (two streams on one subscription
+	// share its messages arbitrarily)
+	pullOnly bool
+	// late collects waiters the writer starts itself, in the middle of its steps
+	late []*c10Waiter
 }
 
 type c10Scenario struct {
@@ -243,6 +248,39 @@ func c10Scenarios() []c10Scenario {
 			}
 			return w
 		}},
+		{"two-pullers-share-a-subscription", func(e *rig.Env, v int) *c10World {
+			// two waiting pulls on ONE subscription and several publishes: the wait
+			// registry of a subscription is shared state, and one pull coming and going
+			// (registering, being woken, re-registering, cleaning up on return) must not
+			// disturb the other's registration. The second puller is started by the
+			// writer, j half-steps before the first publish; a second publish follows
+			// half a step later (it fires whatever is registered then), and after
+			// everything has settled a third one must still reach whoever is waiting
+			mkTopic(e, T)
+			mkSub(e, &pubsubpb.Subscription{Name: sub(0), Topic: T})
+			if v%2 == 0 {
+				actions.WakeAllInternal()
+			}
+			w := &c10World{e: e, waitSubs: []string{sub(0)}, pullOnly: true}
+			j := (v / 2) % 4
+			w.writer = func(ctx context.Context) error {
+				w.late = append(w.late, startWaiter(e, sub(0), false, 7))
+				time.Sleep(time.Duration(j) * c10D / 2)
+				if err := pub1(ctx, e, T, ""); err != nil {
+					return err
+				}
+				time.Sleep(c10D / 2)
+				if err := pub1(ctx, e, T, ""); err != nil {
+					return err
+				}
+				for q := 0; q < 16; q++ {
+					time.Sleep(c10D / 2)
+					rig.Quiesce()
+				}
+				return pub1(ctx, e, T, "")
+			}
+			return w
+		}},
 	}
 }
 
@@ -325,6 +363,9 @@ func TestC10(t *testing.T) {
 						rig.SetWatchdogContext(fmt.Sprintf("C10 %s v=%d k=%d", sc.name, v, k))
 						rig.RunCase(t, seed, rig.Opts{}, func(e *rig.Env) {
 							w := sc.setup(e, v)
+							if w.pullOnly && stream {
+								return
+							}
 							var omu sync.Mutex
 							var order []string
 							seam.C.SetBoundaryObserver(func(actor string, kind seam.Kind) {
@@ -369,6 +410,7 @@ func TestC10(t *testing.T) {
 							if werr != nil {
 								col.Inconclusive(fmt.Sprintf("%s: writer failed: %v", sc.name, werr))
 							}
+							waiters = append(waiters, w.late...)
 							tw := time.Now()
 							// quiescence loop: the waiters may still be inside their own
 							// scheduled boundary delays; give them those, and nothing more
